@@ -27,6 +27,12 @@ SIMPLE = {
     'things:annotated_fn': ('x', ['y', 'child']),
     'things:mutdef': ('c', ['a', 'b']),
     'things:mutdef1': ('c', ['a', 'other']),
+    'things:kwdef': ('a', ['scale', 'child']),
+    'things:DataLoader': ('x', ['child']),
+    'things:data_loader': ('x', ['child']),
+    'things:mutating': ('x', ['child']),
+    'things:kwf': ('a', ['z0', 'z1']),
+    'things:kwg': ('a', ['z0', 'z1']),
 }
 
 _FACTORIES = {'list': list, 'int': int, 'make_list': things.make_list, None: None}
